@@ -364,6 +364,9 @@ class RawVoltageBackend(object):
             try:
                 if isinstance(directio, str):
                     directio = int(directio.replace("'", ""))
+                elif not isinstance(directio, bool) and float(directio).is_integer():
+                    # Write whole-number values given as floats as the integer card the readers parse
+                    header_dict['DIRECTIO'] = int(directio)
                 directio = directio != 0
             except BaseException as err:
                 tqdm(f'Could not parse DIRECTIO value `{header_dict["DIRECTIO"]}` ({repr(err)}). Replacing with `0`.')
